@@ -196,6 +196,7 @@ type Expect struct {
 	FatalDesc  string
 	FatalAt    int    // chain position whose response is rejected
 	FatalFam   string // family of the first collision (class key)
+	FatalKey   string // its key (adjustment path)
 	FatalPath  string // "adjust" | "update"
 	FatalDist  int    // chain distance between the colliding plugins
 	FatalTgt   string // target kind of the collision (SELF / T*)
@@ -371,6 +372,7 @@ func Predict(c Case) *Expect {
 			it := item{"SELF", op.Fam, op.Key}
 			if o, ok := owner[it]; ok && o != pos {
 				e.FatalFam, e.FatalPath, e.FatalDist, e.FatalTgt = op.Fam, "adjust", pos-o, "SELF"
+				e.FatalKey = op.Key
 				fatal("conflict", fmt.Sprintf("plugins at chain positions %d and %d both set %s", o, pos, it), pos)
 				break
 			}
